@@ -98,6 +98,22 @@ proof fn id_lcm_int(x: int, yp: int, g: int) by (nonlinear_arith)
 proof fn id_mul_swap_int(a: int, b: int, c: int) by (nonlinear_arith)
     ensures (a * b) * c == (a * c) * b {}
 
+/// w (a d) = (a w) d
+#[verifier::external_body] pub proof fn id_inv_cancel(w: int, a: int, d: int) ensures rmul(w, rmul(a, d)) == rmul(rmul(a, w), d) {}
+proof fn id_inv_cancel_int(w: int, a: int, d: int) by (nonlinear_arith)
+    ensures w * (a * d) == (a * w) * d {}
+/// (x - y) z = x z - y z
+#[verifier::external_body] pub proof fn id_sub_mul_right(x: int, y: int, z: int) ensures rmul(rsub(x, y), z) == rsub(rmul(x, z), rmul(y, z)) {}
+proof fn id_sub_mul_right_int(x: int, y: int, z: int) by (nonlinear_arith)
+    ensures (x + (-y)) * z == x * z + (-(y * z)) {}
+/// x - y = 0  ==>  x = y      (x = (x - y) + y)
+#[verifier::external_body] pub proof fn id_sub_add_back(x: int, y: int) ensures radd(rsub(x, y), y) == x {}
+proof fn id_sub_add_back_int(x: int, y: int) ensures (x + (-y)) + y == x {}
+/// (m c) p = m (p c)   and   a p c-regrouping used by the valuation kernel
+#[verifier::external_body] pub proof fn id_pow_shift(m: int, c: int, p: int) ensures rmul(rmul(m, c), p) == rmul(m, rmul(p, c)), rmul(rmul(m, p), c) == rmul(m, rmul(p, c)) {}
+proof fn id_pow_shift_int(m: int, c: int, p: int) by (nonlinear_arith)
+    ensures (m * c) * p == m * (p * c), (m * p) * c == m * (p * c) {}
+
 // ---- derived divisibility lemmas (proved from the above) ----
 pub proof fn lemma_dvd_refl(a: int) ensures dvd(a, a) { ax_mul_one(a); assert(a == rmul(r1(), a)); }
 pub proof fn lemma_dvd_zero(d: int) ensures dvd(d, r0()) { id_mul_zero(d); assert(r0() == rmul(r0(), d)); }
@@ -153,6 +169,17 @@ pub proof fn lemma_rem_zero_iff_dvd(a: int, b: int) requires b != r0() ensures (
         let m = choose|m: int| r == rmul(m, b);
         ax_norm_mono(m, b);
     }
+}
+/// cancellation in an integral domain: x z == y z, z != 0  ==>  x == y
+pub proof fn lemma_cancel(x: int, y: int, z: int) requires rmul(x, z) == rmul(y, z), z != r0() ensures x == y {
+    id_sub_mul_right(x, y, z); id_sub_self(rmul(y, z));
+    ax_domain(rsub(x, y), z);
+    id_sub_add_back(x, y); ax_add_zero(y);
+}
+/// powers
+pub open spec fn rpow(c: int, k: nat) -> int decreases k { if k == 0 { r1() } else { rmul(rpow(c, (k - 1) as nat), c) } }
+pub proof fn lemma_rpow_nonzero(c: int, k: nat) requires c != r0() ensures rpow(c, k) != r0() decreases k {
+    if k == 0 { ax_nontrivial(); } else { lemma_rpow_nonzero(c, (k - 1) as nat); ax_domain(rpow(c, (k - 1) as nat), c); }
 }
 /// the Euclidean measure used for termination of  while !y.is_zero()
 pub open spec fn emeasure(y: int) -> nat { if y == r0() { 0 } else { rnorm(y) + 1 } }
